@@ -16,6 +16,34 @@ package scipipe
 //@ axiom RA.parent.nonempty: forall s string :: len(s) > 0 ==> len(replaceAll(s, "../", "__parent__")) > 0
 //@ axiom RA.parent.valid: forall s string :: validPath(s) ==> validPath(replaceAll(s, "../", "__parent__"))
 
+// Common string functions of the standard library (assumed contracts; the spec functions without an SMT interpretation
+// have a Go interpretation in govc/concrete.go for replays and for the concrete validation of axioms).
+//@ ghost func trimLeftSet(s string, cutset string) string
+//@ ghost func trimRightSet(s string, cutset string) string
+//@ extern strings.HasPrefix(s, prefix) (res)
+//@   deterministic by-contract pure library function
+//@   ensures def: res == hasPrefix(s, prefix)
+//@ extern strings.HasSuffix(s, suffix) (res)
+//@   deterministic by-contract pure library function
+//@   ensures def: res == hasSuffix(s, suffix)
+//@ extern strings.Contains(s, substr) (res)
+//@   deterministic by-contract pure library function
+//@   ensures def: res == contains(s, substr)
+//@ extern strings.Index(s, substr) (res)
+//@   deterministic by-contract pure library function
+//@   ensures def: res == indexOf(s, substr)
+//@ extern strings.TrimPrefix(s, prefix) (res)
+//@   deterministic by-contract pure library function
+//@   ensures def: res == ite(hasPrefix(s, prefix), substr(s, len(prefix), len(s) - len(prefix)), s)
+//@ extern strings.TrimSuffix(s, suffix) (res)
+//@   deterministic by-contract pure library function
+//@   ensures def: res == ite(hasSuffix(s, suffix), substr(s, 0, len(s) - len(suffix)), s)
+//@ extern strings.TrimLeft(s, cutset) (res)
+//@   deterministic by-contract pure library function
+//@   ensures def: res == trimLeftSet(s, cutset)
+//@ extern strings.TrimRight(s, cutset) (res)
+//@   deterministic by-contract pure library function
+//@   ensures def: res == trimRightSet(s, cutset)
 //@ extern strings.ReplaceAll(s, old, new) (res)
 //@   deterministic by-contract pure library function
 //@   ensures def: res == replaceAll(s, old, new)
@@ -725,6 +753,10 @@ package scipipe
 //@ func applyPathModifiers(path, modifiers) (res)
 //@   props C15
 //@   deterministic structural
+// Replay only: a failing obligation is replayed on documented modifiers and a newline-free path, and the real result is
+// compared with the documented meaning (fold of modstep).
+//@   replay assume !contains(path, "\n") && len(modifiers) <= 3 && (len(modifiers) > 0 ==> docMod(modifiers[0])) && (len(modifiers) > 1 ==> docMod(modifiers[1])) && (len(modifiers) > 2 ==> docMod(modifiers[2]))
+//@   replaycheck applies-the-documented-modifiers-left-to-right[C15]: (forall j int :: 0 <= j && j < len(modifiers) ==> docMod(modifiers[j])) && !contains(path, "\n") ==> res == applyMods(path, modifiers)
 //@   assumes functional: res == applyMods(path, modifiers)
 //@   ensures no-modifiers: len(modifiers) == 0 ==> res == path
 //@   loop 0 invariant range: 0 <= $i && $i <= len(modifiers)
